@@ -8,7 +8,7 @@
 (*   <<"V", id, pred, "ok" | "bad", expectedRows>>                         *)
 (* and the run's POSTCONDITION requires every verdict to be "ok".          *)
 (***************************************************************************)
-EXTENDS LSem, Json, IOUtils, TLCExt
+EXTENDS LStatic, Json, IOUtils, TLCExt
 
 (* The file is read once (TLC does not cache IOEnv-dependent definitions). *)
 Cases == TLCGet(2)
@@ -25,8 +25,26 @@ Verdicts(c) ==
       open == UNION {Range(c.prog.rec[k].members) : k \in {j \in loose : ~upper[j].conv}}
       ties == {q \in DOMAIN den \ {"$"} :
                  \E i \in 1..Len(den[q]) : \E f \in DOMAIN den[q][i] : HasAny(den[q][i][f])}
-  IN [k \in 1..Len(c.obs) |->
-        LET o == c.obs[k]
+      (* Stage validation: what a compiler pass produced (projected into the  *)
+      (* IR by harness/project.py) must still denote what the source program  *)
+      (* denotes; its denoted rows are judged exactly like observed rows.     *)
+      StageRows(s) ==
+        LET sp == [s.prog EXCEPT !.preds =
+                     [i \in 1..Len(s.prog.preds) |->
+                        EffectivePreds(s.prog)[s.prog.preds[i].name]]]
+            sd == DenDev(sp, dev)
+        IN SelectSeq([k \in 1..Len(c.obs) |->
+                        IF c.obs[k].p \in DOMAIN sd
+                        THEN [p |-> c.obs[k].p, ordered |-> FALSE, stage |-> s.name,
+                              rows |-> [i \in 1..Len(sd[c.obs[k].p]) |->
+                                          [f \in DOMAIN sd[c.obs[k].p][i] |->
+                                             Concrete(sd[c.obs[k].p][i][f])]]]
+                        ELSE [p |-> "", ordered |-> FALSE, stage |-> s.name, rows |-> <<>>]],
+                     LAMBDA o : o.p # "")
+      allObs == [k \in 1..Len(c.obs) |-> [c.obs[k] EXCEPT !.ordered = @] @@ [stage |-> ""]]
+                \o Flatten([j \in 1..Len(c.stages) |-> StageRows(c.stages[j])])
+  IN [k \in 1..Len(allObs) |->
+        LET o == allObs[k]
             e == den[o.p]
             mine == {j \in loose : o.p \in Range(c.prog.rec[j].members)}
             tainted == \/ (DepsT(pm, {}, {o.p}) \ (IF mine = {} THEN {}
@@ -45,7 +63,9 @@ Verdicts(c) ==
                               \E i \in 1..Len(upper[j].rows[o.p]) :
                                  RowMatch(upper[j].rows[o.p][i], o.rows[r])
               ELSE IF o.ordered THEN SeqMatch(e, o.rows) ELSE BagMatch(e, o.rows)
-        IN [id |-> c.id, p |-> o.p, ok |-> good, exp |-> e,
+        IN [id |-> c.id,
+            p |-> IF o.stage = "" THEN o.p ELSE "$stage:" \o o.stage \o ":" \o o.p,
+            ok |-> good, exp |-> IF o.stage = "" THEN e ELSE o.rows,
             mode |-> IF tainted THEN "skipped" ELSE IF mine # {} THEN "interval" ELSE "exact"]]
 
 (* Metamorphic cases carry the program they were derived from (base: a     *)
